@@ -23,8 +23,14 @@ def build(root, seed, big=False):
     if big:
         objs.append((b'compressible text ' * 5000)[:66000])
     ks = c.add_objects_to_pack(objs[:2] + objs[6:], compress=True) + c.add_objects_to_pack(objs[2:4], compress=False)
+    # objects that are packed (compressed) AND still loose - packed without a following clean_storage: a seeking reader of the packed
+    # copy is served the loose copy - and, after that, loose-only objects
+    both = [b'both-forms ' * 6, rnd.randbytes(23) * 2]
+    ks_both = [c.add_object(b) for b in both]
+    c.pack_all_loose(compress=True)
+    ks += ks_both
     ks += [c.add_object(objs[4]), c.add_object(objs[5])]
-    order = objs[:2] + objs[6:] + objs[2:4] + [objs[4], objs[5]]
+    order = objs[:2] + objs[6:] + objs[2:4] + both + [objs[4], objs[5]]
     npacks = len(list(c._list_packs()))
     c.close()
     assert seed % 4 == 3 or npacks >= 2, npacks
@@ -36,8 +42,17 @@ def readable_right(c, truth):
         for k, o in truth.items():
             if c.get_object_content(k) != o:
                 return False
-            if c.get_object_meta(k).size != len(o):
+            m = c.get_object_meta(k)
+            if m.size != len(o):
                 return False
+            # random access: for a compressed packed object this is served from its loose copy when there is one (only then: the read
+            # must not create files in the container under examination)
+            if m.type.value == 'packed' and m.pack_compressed and os.path.exists(c._get_loose_path_from_hashkey(k)):
+                with c.get_object_stream(k) as st:
+                    st.seek(0, 2)
+                    st.seek(0)
+                    if st.read() != o:
+                        return False
         return True
     except Exception:
         return False
